@@ -67,6 +67,8 @@ func main() {
 		os.Exit(cmdTrace(os.Args[2:]))
 	case "genparams":
 		os.Exit(cmdGenParams(os.Args[2:]))
+	case "genfuncs":
+		os.Exit(cmdGenFuncs(os.Args[2:]))
 	case "mutants":
 		os.Exit(cmdMutants(os.Args[2:]))
 	default:
@@ -257,6 +259,25 @@ func cmdGenParams(args []string) int {
 			ns = append(ns, strconv.Quote(p.Name()))
 		}
 		fmt.Printf("\t%q: {%s},\n", FuncKey(fn), strings.Join(ns, ", "))
+	}
+	fmt.Println("}")
+	return 0
+}
+
+// cmdGenFuncs prints the frozen list of the module's function keys on the reference tree. A module
+// function that is not in the list is a helper introduced later (extract-method refactoring): the
+// term renderer sees through it and call/guard searches descend into it.
+func cmdGenFuncs(args []string) int {
+	w, err := Load("/repo/v8", "", "", "")
+	if err != nil {
+		fmt.Fprintln(os.Stderr, err)
+		return 2
+	}
+	fmt.Println("// Code generated by `gokrb5lint genfuncs` on the reference tree; frozen deliberately.")
+	fmt.Println("package main\n")
+	fmt.Println("var refFuncs = map[string]bool{")
+	for _, fn := range w.ModuleFuncs() {
+		fmt.Printf("\t%q: true,\n", FuncKey(fn))
 	}
 	fmt.Println("}")
 	return 0
